@@ -404,8 +404,13 @@ def aipsw_dr_part(ctx, fails, n_frames=None):
     cases = []
     for fid in range(n_frames):
         df, meta = make_frame(ctx.rng)
-        recorded = ctx.rng.random() < 0.25          # treatment also recorded for the non-sampled rows (still junk outcomes)
+        # every frame records OUTCOMES for the non-sampled rows, every second frame (deterministically, so that no seed
+        # leaves the share empty) also TREATMENTS -- both drawn from a mechanism unlike the sample's; with the treatment
+        # missing patsy drops those rows from any model that mentions A, with both recorded nothing protects a model
+        # that is not restricted to the study sample
+        recorded = fid % 2 == 0
         d = junk_frame(df, ctx.rng, meta, fill_a=recorded)
+        ctx.count('AIPSW-DR:non-sampled rows carry %s' % ('outcome and treatment' if recorded else 'outcome only (treatment NaN)'))
         cases.append((fid, d, meta, recorded))
     _aipsw_dr_cases(ctx, fails, cases, None)
 
@@ -458,7 +463,7 @@ def _aipsw_dr_cases(ctx, fails, cases, fixed):
         n = meta['n']
         cfgs = ('AIPSW(generalize=%s) sampling_model(%r, stabilized=%s) %s outcome_model(%r) [%s side saturated%s]'
                 % (gen, fS, stab, 'treatment_model(%r, stabilized=%s)' % (fA, stab) if rx else 'no treatment_model', fQ,
-                   'outcome' if side == 'Q' else 'weight', ', treatment recorded for non-sampled rows' if recorded else ''))
+                   'outcome' if side == 'Q' else 'weight', ', outcome and treatment recorded for the non-sampled rows' if recorded else ''))
         pay = payload_of(d, meta, 'AIPSW', gen, stab, rx, {'side': side, 'fS': fS, 'fA': fA, 'fQ': fQ, 'recorded_A': recorded,
                                                             'part': 'aipsw_dr'})
         ctx.count('AIPSW-DR:%s-sat,stab=%s,%s' % (side, stab, 'generalize' if gen else 'transport'))
